@@ -444,6 +444,45 @@ example : (∀ op ∈ exProgram, op.Valid) ∧ Hist.run [{}] exProgram = some
   simp only [exProgram, List.mem_cons, List.mem_nil_iff, or_false] at hop
   rcases hop with h | h | h | h | h | h | h | h | h <;> subst h <;> simp [Hist.Op.Valid]
 
+/-- **Rejected calls inside a program; objects that enter a program from outside.**  `Hist.runSkip` is the history a user
+really has: a call the code rejects (`Hist.step = none`: `remove_edge` / `remove_node` of something absent, an object that does
+not exist) raises, the exception is caught and the program goes on.  For every such program - which may also take over objects
+made by a loader / generator / filter (`Op.load`), restore a snapshot (`Op.restore` = `populate_from_dict`) or continue from the
+listing of an object (`Op.put`) - every object still has distinct nodes, distinct duplicate-free hyperedges over its nodes, and
+its degrees sum to the total size of its (filtered) hyperedges; a rejected call leaves the WHOLE state as it was, and a program
+without rejected calls is `Hist.run`.  Hypotheses (`Op.Valid`): `add_edge` gets a duplicate-free tuple; a listing taken from
+outside is well-formed (the harness checks that on the listing itself before it hands it to the model). -/
+theorem C08_history_rejected (ops : List Hist.Op) (hv : ∀ op ∈ ops, op.Valid) (c : Hist.Content)
+    (hc : c ∈ Hist.runSkip [{}] ops) (f : Filt) :
+    (c.nodes.Nodup ∧ c.es.Nodup ∧ WF c.nodes c.es ∧ (∀ e ∈ c.es, e.Nodup) ∧ (∀ e ∈ c.es, e.Pairwise (· < ·))) ∧
+    (c.nodes.map (fun n => deg c.es n f)).sum
+      = ((c.es.filter (fun e => passes f e.length)).map (fun e => e.length)).sum ∧
+    (∀ st op, Hist.step st op = none → Hist.stepSkip st op = st) ∧
+    (∀ st, Hist.run [{}] ops = some st → Hist.runSkip [{}] ops = st) := by
+  have h := Hist.inv_runSkip ops [{}] hv (by intro d hd; simp at hd; subst hd; exact Hist.inv_empty) c hc
+  have hnd : ∀ e ∈ c.es, e.Nodup := fun e he => Hist.nodup_of_sorted e (h.sorted e he)
+  exact ⟨⟨h.nodes_nodup, h.es_nodup, h.wf, hnd, h.sorted⟩,
+    C08_handshake id c.nodes c.es h.nodes_nodup (fun e he => ⟨hnd e he, h.wf e he⟩) f,
+    fun st op hs => (Hist.stepSkip_eq st op).1 hs,
+    fun st hr => Hist.runSkip_of_run ops [{}] st hr⟩
+
+/-- non-vacuity: rejected removals (absent hyperedge, absent node, absent object) in the middle of a program, an object taken
+over from a generator, a snapshot restored into it, and a listing put in place of the first object; `Hist.run` gives up at
+the first rejected call -/
+def exRejected : List Hist.Op :=
+  [.addEdge 0 [2, 1], .removeEdge 0 [1, 3], .addEdge 0 [3, 2, 4], .removeNode 0 7 false, .load ⟨[0, 1, 2], [[0, 1]]⟩,
+   .removeEdge 5 [1, 2], .addNode 1 9, .restore 1 0, .removeEdge 1 [1, 2], .put 0 ⟨[5, 6], [[5, 6], [6]]⟩, .clear 0, .addNode 0 6]
+
+example : (∀ op ∈ exRejected, op.Valid) ∧ Hist.run [{}] exRejected = none ∧
+    Hist.runSkip [{}] exRejected = [⟨[6], []⟩, ⟨[1, 2, 3, 4], [[2, 3, 4]]⟩] := by
+  refine ⟨?_, by decide, by decide⟩
+  intro op hop
+  simp only [exRejected, List.mem_cons, List.mem_nil_iff, or_false] at hop
+  rcases hop with h | h | h | h | h | h | h | h | h | h | h | h <;> subst h <;>
+    first
+      | (simp [Hist.Op.Valid]; done)
+      | exact ⟨by decide, by decide, by decide, by decide⟩
+
 /-! ## Links to the full container models (C01 … C04)
 
 The theorems above take LISTINGS.  The four container classes have complete models with refinement proofs for every
